@@ -226,6 +226,31 @@ def policy_sets(fb, f):
     return one, anyf, others_ok
 
 
+def policy_accepts_without_files(fb, f):
+    """Codes (None = every code not named in an arm) for which the attached-file policy has an accepting path that does
+    not require descriptors to be present."""
+    summ = Summariser(fb, no_inline=lambda g: True)
+    outs, sym = summ.paths(f)
+    acc = set()
+    for o in outs:
+        if o.ret is None or ret_okness(o.ret) is not True:
+            continue
+        codes = None
+        needs = False
+        for a in o.atoms:
+            if a[0] == "variant" and not a[3] and any(s[0] == "call" and s[1] == "get_code" for s in subterms(a[1])):
+                codes = set(a[2])
+            if a[0] == "ok" and _is_files(a[1]):
+                needs = True
+            if a[0] == "variant" and _is_files(a[1]) and ((a[2] == frozenset(["Some"]) and not a[3]) or (a[2] == frozenset(["None"]) and a[3])):
+                needs = True
+            if a[0] == "cmp" and "len(" in show(a[2]) and a[1] in ("Eq", "Ge", "Gt") and a[3][0] == "const" and a[3][1] >= 1:
+                needs = True
+        if not needs:
+            acc |= codes if codes else {None}
+    return acc
+
+
 def _is_files(t):
     while t[0] in ("ref", "deref"):
         t = t[1]
